@@ -386,6 +386,8 @@ fn default_configs(prop: Prop, tier: &str) -> Vec<(&'static str, usize)> {
             if q { vec![("ctwin", 7), ("copy", 7), ("all", 3)] } else { vec![("ctwin", 8), ("copy", 8), ("all", 4), ("ctwin@3", 6), ("copy@5", 6)] }
         }
         Prop::C16 => vec![("copy", 3)],
+        // the wide-registry harnesses only: queries and filters over component positions at and beyond the first byte boundary
+        Prop::C03 => if q { vec![("w8", 4), ("w9", 4), ("w10", 4)] } else { vec![("w8", 6), ("w9", 6), ("w10", 6)] },
     }
 }
 
